@@ -195,10 +195,24 @@ where
 struct FRec {
     inst: usize,
 }
+/// creation number of the span whose close makes FRec::on_close panic (`fdrop`), or -1
+static ARMED: std::sync::atomic::AtomicI64 = std::sync::atomic::AtomicI64::new(-1);
+
 impl<C> Subscribe<C> for FRec
 where
     C: Collect + for<'a> LookupSpan<'a>,
 {
+    fn on_close(&self, id: span::Id, ctx: Context<'_, C>) {
+        // FRec is the OUTERMOST layer: every other layer has been notified, the outermost CloseGuard is already `closing`.
+        // The unwinding drops that guard, which clears the slot and releases the parent — as after a plain close.
+        if let Some(sp) = ctx.span(&id) {
+            if seq_of_name(sp.name()) == ARMED.load(Ordering::SeqCst) {
+                drop(sp);
+                std::panic::panic_any(ScriptedUnwind);
+            }
+        }
+    }
+
     fn on_event(&self, ev: &Event<'_>, ctx: Context<'_, C>) {
         let cur = ctx.lookup_current().map(|s| seq_of_name(s.name()));
         let espan = ctx.event_span(ev).map(|s| seq_of_name(s.name()));
@@ -236,6 +250,7 @@ enum Pk {
 enum Op {
     New(u64, Pk, bool), // bool: DEBUG level (disabled for the filtered layer)
     PDrop(u64),         // the handle is dropped while a scripted panic unwinds (caught)
+    FDrop(u64),         // the handle is dropped and the outermost layer's on_close panics for that span (caught)
     Hold(u64, u64),     // hold k h: look the span of handle h up through its registry and keep the SpanRef in slot k
     Poke(u64),          // poke k: write an extension (Note) through the held SpanRef
     Peek(u64),          // peek k: read it back through the held SpanRef
@@ -464,6 +479,26 @@ impl Worker {
                     }
                 }
             }
+            Op::FDrop(h) => {
+                let x = lock(&sh.handles).remove(h);
+                match x {
+                    None => log("{\"k\":\"ill\",\"c\":3}".into()),
+                    Some(v) => {
+                        let q = match &v {
+                            Handle::S(s) => span_q(&sh, s),
+                            Handle::T(_) => None,
+                        };
+                        ARMED.store(q.unwrap_or(-1), Ordering::SeqCst);
+                        let r = catch_unwind(AssertUnwindSafe(move || drop(v)));
+                        ARMED.store(-1, Ordering::SeqCst);
+                        if let Err(e) = r {
+                            if e.downcast_ref::<ScriptedUnwind>().is_none() {
+                                std::panic::resume_unwind(e);
+                            }
+                        }
+                    }
+                }
+            }
             Op::Hold(k, h) => {
                 if self.refs.contains_key(k) {
                     log("{\"k\":\"ill\",\"c\":1}".into());
@@ -630,6 +665,7 @@ fn parse_op(f: &[&str]) -> (usize, Op) {
     let op = match f[0] {
         "new" => Op::New(n(2), parse_pk(&f[3..]), f.last() == Some(&"d")),
         "pdrop" => Op::PDrop(n(2)),
+        "fdrop" => Op::FDrop(n(2)),
         "hold" => Op::Hold(n(2), n(3)),
         "poke" => Op::Poke(n(2)),
         "peek" => Op::Peek(n(2)),
